@@ -108,7 +108,27 @@ def project_tasks(prop, tier, base):
             tasks.append({"tid": "t%d" % k, "kind": "table", "seed": core.run_seed(base, 900000 + k)})
     for k in range(n_hist):
         tasks.append({"tid": "h%d" % k, "kind": "gen", "seed": core.run_seed(base, k), "focus": prop})
+    tasks = stored_tasks(prop, "project") + tasks
     return tasks
+
+
+def stored_tasks(prop, engine):
+    """Replays of fixed defects (regressions/) and of open findings (findings/) of this property are re-executed
+    in every run: a fixed defect that returns is reported like any new violation."""
+    out = []
+    for sub, pre in (("regressions", "r"), ("findings", "f")):
+        d = os.path.join(core.VERIF, sub)
+        if not os.path.isdir(d):
+            continue
+        for name in sorted(os.listdir(d)):
+            if not name.endswith(".json"):
+                continue
+            with open(os.path.join(d, name)) as f:
+                doc = json.load(f)
+            if doc.get("engine", "project") != engine or doc.get("property") != prop:
+                continue
+            out.append({"tid": "%s:%s" % (pre, name[:-5]), "kind": "scenario", "scenario": doc["scenario"], "stored": sub, "expect_sig": doc.get("expect_sig")})
+    return out
 
 
 def run_project_check(prop, tier):
@@ -160,8 +180,13 @@ def run_project_check(prop, tier):
         else:
             new.append(vs)
     lines = []
-    for fid, (k, n) in sorted(known_hit.items()):
-        lines.append("KNOWN-FINDING: property=%s %s [%s, seen %d times in this run]" % (prop, k["text"], fid, n))
+    for k in known:
+        if k["property"] != prop:
+            continue
+        if k["id"] in known_hit:
+            lines.append("KNOWN-FINDING: property=%s %s [%s, seen %d times in this run]" % (prop, k["text"], k["id"], known_hit[k["id"]][1]))
+        else:
+            lines.append("NOTE: open finding %s of %s did not occur in this run (stale entry or changed tree): %s" % (k["id"], prop, k["text"][:100]))
     # ---- shrink + confirm the new ones (bounded: the first few distinct signatures)
     nviol = 0
     max_report = int(os.environ.get("DTSIM_MAX_REPORT", "6"))
@@ -312,7 +337,7 @@ def replay(path):
     return EXIT_HARNESS
 
 
-COARSE_KEYS = ("property", "oracle", "op", "target_kind", "pre_state", "write", "fault", "seam", "left", "exc", "site", "sub", "why", "addr", "in_kind", "eval", "wrap", "says", "grew", "gen_type")
+COARSE_KEYS = ("property", "oracle", "op", "target_kind", "pre_state", "write", "fault", "seam", "left", "exc", "site", "sub", "why", "combos", "combo", "eval", "wrap", "says", "grew", "gen_type")
 
 
 def survey(prop, n="400"):
